@@ -1255,6 +1255,18 @@ fn sig_edits(text: &str, fp: &FnParts, on: &dyn Fn(&str) -> bool, arg_names: &BT
                     lets.push_str(&format!(" let {} = {};", &text[s..e], name));
                     edits.push(Edit { start: s, end: e, text: name, rule: "N4" });
                 }
+                // N4c: `mut x: T` parameter -> `x: T` + `let mut x = x;` (verus! has no `mut` parameters)
+                if let syn::Pat::Ident(pi) = &*pt.pat {
+                    if let Some(m) = &pi.mutability {
+                        if pi.by_ref.is_none() && pi.subpat.is_none() {
+                            let (ms, me) = br(m.span());
+                            let (_, ie) = br(pi.ident.span());
+                            let _ = me;
+                            edits.push(Edit { start: ms, end: ie, text: pi.ident.to_string(), rule: "N4" });
+                            lets.push_str(&format!(" let mut {} = {};", pi.ident, pi.ident));
+                        }
+                    }
+                }
                 // N4b: a `_` parameter gets a name (verus! wants identifiers)
                 if matches!(&*pt.pat, syn::Pat::Wild(_)) {
                     let (s, e) = br(pt.pat.span());
